@@ -133,13 +133,15 @@ class Run(object):
                 old = self.ts[ev["id"]] or {}
                 cur = dict(ev)
                 cur["tgt"] = old.get("tgt", ev["tgt"]) if a != "StreamNew" else ev["tgt"]
+                cur["taddr"] = ev["tgt"] if a == "Remap" else old.get("taddr", "")
                 if a == "Detached":
                     cur["circ"] = 0
                 self.ts[ev["id"]] = cur
 
     def snapshot(self):
         circs = [circ_line(ev, True) for c, ev in sorted(self.tc.items()) if ev]
-        streams = [stream_line(dict(ev, src="")) for s, ev in sorted(self.ts.items()) if ev]
+        streams = [stream_line(dict(ev, src="", tgt=ev["taddr"] if ev["st"] == "REMAP" else ev["tgt"]))
+                   for s, ev in sorted(self.ts.items()) if ev]
         self.sim.info["circuit-status"] = circs[0] if len(circs) == 1 else (circs if circs else "")
         self.sim.info["stream-status"] = streams[0] if len(streams) == 1 else (streams if streams else "")
         self.state = TorState(self.proto)
